@@ -64,15 +64,15 @@ KidsOf(n) == IF IsContainerNode(n) THEN n.kids ELSE << >>
 
 (* every type of `once` exactly once, every type of `opt` at most once *)
 Need(kids, once, opt, site) ==
-         { TSig("Grammar", site, << "missing-or-repeated", t >>) : t \in { u \in once : Count(kids, u) # 1 } }
-    \cup { TSig("Grammar", site, << "repeated", t >>) : t \in { u \in opt : Count(kids, u) > 1 } }
+         { TSig("Grammar", site, ToString(<< "missing-or-repeated", t >>)) : t \in { u \in once : Count(kids, u) # 1 } }
+    \cup { TSig("Grammar", site, ToString(<< "repeated", t >>)) : t \in { u \in opt : Count(kids, u) > 1 } }
 
 Under(kids, t, F(_)) == IF Count(kids, t) = 1 THEN F(Kid(kids, t)) ELSE {}
 
 StblSigs(stbl, frag) ==
     LET k == KidsOf(stbl) IN
     Need(k, {"stsd", "stts", "stsc", "stsz"}, {"ctts", "stss"}, "stbl")
-    \cup (IF Count(k, "stco") + Count(k, "co64") # 1 THEN {TSig("Grammar", "stbl", << "missing-or-repeated", "stco" >>)} ELSE {})
+    \cup (IF Count(k, "stco") + Count(k, "co64") # 1 THEN {TSig("Grammar", "stbl", ToString(<< "missing-or-repeated", "stco" >>))} ELSE {})
     \cup Under(k, "stsd", LAMBDA s : IF Len(KidsOf(s)) # 1 THEN {TSig("Grammar", "stsd", "entry-count")} ELSE {})
 
 MinfSigs(minf, handler) ==
